@@ -7,6 +7,8 @@ CONSTANTS
     ColSets = {{"x"}}
     Kinds = {"time_course"}
     FailModes = {"intfail"}
+    Y0s = {0}
+    Y0Again = FALSE
     MaxDur = 1
     SharedInSeq = TRUE
     Timed = FALSE
